@@ -308,6 +308,9 @@ RULES = {
     "R8": [(".split($C).collect()", ".vsplit_collect($C)")],
     # R10 (signature-only callees): `mut self` is a body-local binding mode, not part of the interface
     "R10": [("(mut self", "(self")],
+    # R10b (computed, see apply_rule): a function *body* with a `mut self` receiver (Verus: "mut self" unsupported):
+    # the receiver becomes `self`, the body starts with `let mut self_ = self;` and says `self_` wherever it said `self`
+    "R10b": [],
     # R4c: calling a fn-pointer field `(x.f)(a, b, c)` becomes the shim method call `x.f.call(a, b, c)`
     "R4c": [("(self.format_for_stderr)(", "self.format_for_stderr.call("), ("(self.format_for_stdout)(", "self.format_for_stdout.call("),
             ("(handle.format_function)(", "handle.format_function.call("), ("(self.format_function)(", "self.format_function.call("),
@@ -316,6 +319,18 @@ RULES = {
     "R11": [(".store(", ".vstore("), (".load(", ".vload(")],
     # R4: fn-pointer alias becomes an opaque shim
     "R4": [("FormatFunction", "VFormatFn")],
+    # R16: iterator adapters on an owned Vec (provided trait methods: Verus accepts no specification) become eager shims on
+    # vectors: `v.into_iter().map(f)` -> `v.vmap(f)`, then `.filter_map(g)` -> `.vfilter_map(g)`, `.reduce(h)` -> `.vreduce(h)`;
+    # R16b: `.unwrap_or_else(Local::now)` -> `.unwrap_or_else(|| .. { Local::now() })` (a fn item as a closure value; the closure
+    # carries the contract of the prelude's Local::now: `ensures r == clock_now()`)
+    "R16": [(".into_iter().map(", ".vmap("), (".filter_map(", ".vfilter_map("), (".reduce(", ".vreduce(")],
+    "R16b": [(".unwrap_or_else(Local::now)", ".unwrap_or_else(|| -> (r: DateTime<Local>) ensures r == clock_now() { Local::now() })")],
+    # R13 (computed): `v.iter().filter_map(f).max()` (provided trait methods) -> shim `v.vmax_filter_map(f)`
+    "R13": [],
+    # R15: `String::add(&str)` (its std signature cannot be matched by assume_specification: two lifetime binders) -> shim method
+    "R15": [(".add(", ".vadd(")],
+    # R14: the one formatting of the restart discriminant -> shim with an oracle for the text
+    "R14": [('format!(".restart-{next_number:04}")', "vfmt_restart(next_number)")],
     # R12: `v.into_iter().enumerate()` (Iterator::enumerate is a provided trait method: Verus accepts no specification for
     # it) becomes the shim `v.venumerate()`: the eagerly built vector of (index, element) pairs
     "R12": [(".into_iter().enumerate()", ".venumerate()")],
@@ -341,6 +356,41 @@ def apply_rule(sf, a, b, rule, edits):
     hits = 0
     toks = sf.toks
     sigidx = [k for k in range(a, b) if toks[k].kind not in TRIVIA]
+    if rule == "R10b":
+        for p in range(len(sigidx) - 2):
+            k0, k1, k2 = sigidx[p], sigidx[p + 1], sigidx[p + 2]
+            if toks[k0].text == "(" and toks[k1].text == "mut" and toks[k2].text == "self":
+                close = sf.br[k0]
+                j = close + 1
+                while j < b and toks[j].text != "{":
+                    if toks[j].text in "([":
+                        j = sf.br[j]
+                    j += 1
+                if j >= b:
+                    raise ExtractError("anchor lost: R10b found no body")
+                body_open, body_close = j, sf.br[j]
+                edits.replace(k1, k1 + 1, [Piece("")])
+                edits.insert_before(body_open + 1, [Piece(" let mut self_ = self;", label="kw")])
+                for k in range(body_open + 1, body_close):
+                    if toks[k].kind == "ident" and toks[k].text == "self":
+                        edits.replace(k, k + 1, [Piece("self_", sf, toks[k].start)])
+                hits += 1
+                break
+        return hits
+    if rule == "R13":
+        # `$E.iter().filter_map(<closure>).max()` -> `$E.vmax_filter_map(<closure>)`
+        pat = [".", "iter", "(", ")", ".", "filter_map", "("]
+        for p in range(len(sigidx) - len(pat)):
+            if [toks[sigidx[p + q]].text for q in range(len(pat))] == pat:
+                open_k = sigidx[p + len(pat) - 1]
+                close_k = sf.br[open_k]
+                tail = [k for k in sigidx if k > close_k][:4]
+                if [toks[k].text for k in tail] != [".", "max", "(", ")"]:
+                    continue
+                edits.replace(sigidx[p], sigidx[p + 5] + 1, [Piece(".vmax_filter_map", sf, toks[sigidx[p]].start)])
+                edits.replace(tail[0], tail[3] + 1, [Piece("")])
+                hits += 1
+        return hits
     if rule == "R5l":
         import ast
         for k in sigidx:
@@ -712,6 +762,7 @@ class Directive:
         self.span_from = None
         self.span_upto = None
         self.span_semi = False
+        self.span_before = False
         self.span_block = None
         self.bytesconst = False
 
@@ -732,6 +783,41 @@ def find_seq(sf, a, b, text):
         if [sf.toks[sigidx[p + q]].text for q in range(n)] == want:
             return sigidx[p], sigidx[p + n - 1]
     return None
+
+
+def weave_closures(d, sf, lo, hi, ed, rule_hits):
+    """closure annotations (by ordinal or by text anchor) inside the token range [lo, hi)"""
+    toks = sf.toks
+    cls = find_closures(sf, lo, hi)
+    for n, spec in d.closures.items():
+        if isinstance(n, str):
+            snip = norm(n[1:])
+            cands = [c for c in cls if snip in norm_tokens(toks[c[0]:c[3]])]
+            if not cands:
+                rule_hits["closure-missing"] = rule_hits.get("closure-missing", 0) + 1
+                continue
+            p0, p1, body, bend, block = min(cands, key=lambda c: c[3] - c[0])
+        elif n < 1 or n > len(cls):
+            # the annotated closure is gone: verify without its annotation (the body decides)
+            rule_hits["closure%d-missing" % n] = 1
+            continue
+        else:
+            p0, p1, body, bend, block = cls[n - 1]
+        cind = indent_of(sf, p0)
+        if spec.get("sig"):
+            ed.replace(p0, p1 + 1, [Piece(spec["sig"])])
+        ps = []
+        for kind, kwd in (("req", "requires"), ("ens", "ensures")):
+            if spec.get(kind):
+                ps.append(Piece("\n" + cind + "    " + kwd + "\n", label="kw"))
+                for c in spec[kind]:
+                    ps.append(Piece(cind + "        " + c.text.rstrip().rstrip(",") + ",\n", label=c.label))
+        if ps:
+            ps.append(Piece(cind, label="kw"))
+        if not block:
+            ps.append(Piece("{ ", label="kw"))
+            ed.insert_before(bend, [Piece(" }", label="kw")])
+        ed.insert_before(body, ps)
 
 
 def render_span(d, it, repo_root, registry):
@@ -765,6 +851,8 @@ def render_span(d, it, repo_root, registry):
         j = u[1]
     if d.span_block:
         pass
+    elif d.span_before:
+        end = u[0]
     elif d.span_semi:
         while j < it.body_close and toks[j].text != ";":
             if toks[j].text in "([{":
@@ -774,11 +862,18 @@ def render_span(d, it, repo_root, registry):
             raise ExtractError("anchor lost: span end %r of %s is not followed by `;`" % (d.span_upto, it.name))
         end = j + 1
     else:
-        while j < it.body_close and toks[j].text != "{":
-            if toks[j].text in "([":
-                j = sf.br[j]
-            j += 1
-        end = sf.br[j] + 1
+        while True:
+            while j < it.body_close and toks[j].text != "{":
+                if toks[j].text in "([":
+                    j = sf.br[j]
+                j += 1
+            end = sf.br[j] + 1
+            # an `if` statement continues over its `else` chain
+            nx = sf.next_sig(end)
+            if nx < it.body_close and toks[nx].text == "else":
+                j = nx + 1
+                continue
+            break
     ed = Edits()
     cfg_t, cfg_f = cfg_edits(sf, f[0], end, FEATURES, ed)
     rule_hits = {}
@@ -786,8 +881,11 @@ def render_span(d, it, repo_root, registry):
         rule_hits[rule] = apply_rule(sf, f[0], end, rule, ed)
         if n >= 0 and rule_hits[rule] != n:
             raise ExtractError("anchor lost: rule %s hit %d times in span of %s, contract expects %d" % (rule, rule_hits[rule], it.name, n))
+    if d.closures:
+        weave_closures(d, sf, f[0], end, ed, rule_hits)
     registry.append({"mode": "fn", "file": os.path.relpath(sf.path, repo_root), "item": d.query + " [span]", "name": d.rename or (it.name + "__span"),
-                     "line": toks[f[0]].line, "rules": rule_hits, "cfg_true": cfg_t, "cfg_false": cfg_f, "clauses": [], "canary": False,
+                     "line": toks[f[0]].line, "rules": rule_hits, "cfg_true": cfg_t, "cfg_false": cfg_f,
+                     "clauses": [(k, c.label, c.props) for sp in d.closures.values() for k in ("req", "ens") for c in sp.get(k, [])], "canary": False,
                      "tline": d.tline, "span": True})
     ind = indent_of(sf, f[0])
     return [Piece(ind, label="indent")] + render_tokens(sf, f[0], end, ed) + [Piece("\n", label="nl")]
@@ -841,8 +939,10 @@ def render_item(d, it, repo_root, registry):
     # attributes to drop
     if d.dropattrs:
         k = it.start
-        while k < it.first:
-            if toks[k].text == "#":
+        # attributes of the item itself and, for type items, of its fields / variants (e.g. `#[default]`)
+        hi = it.first if it.kind == "fn" else b
+        while k < hi:
+            if toks[k].text == "#" and toks[sf.next_sig(k + 1)].text == "[":
                 n = sf.next_sig(k + 1)
                 close = sf.br[n]
                 txt = norm_tokens(toks[k:close + 1])
@@ -911,36 +1011,7 @@ def render_item(d, it, repo_root, registry):
                     ps.append(Piece(lind, label="kw"))
                     ed.insert_before(lbody, ps)
             if d.closures:
-                cls = find_closures(sf, it.body_open + 1, it.body_close)
-                for n, spec in d.closures.items():
-                    if isinstance(n, str):
-                        snip = norm(n[1:])
-                        cands = [c for c in cls if snip in norm_tokens(toks[c[0]:c[3]])]
-                        if not cands:
-                            rule_hits["closure-missing"] = rule_hits.get("closure-missing", 0) + 1
-                            continue
-                        p0, p1, body, bend, block = min(cands, key=lambda c: c[3] - c[0])
-                    elif n < 1 or n > len(cls):
-                        # the annotated closure is gone: verify without its annotation (the body decides)
-                        rule_hits["closure%d-missing" % n] = 1
-                        continue
-                    else:
-                        p0, p1, body, bend, block = cls[n - 1]
-                    cind = indent_of(sf, p0)
-                    if spec.get("sig"):
-                        ed.replace(p0, p1 + 1, [Piece(spec["sig"])])
-                    ps = []
-                    for kind, kwd in (("req", "requires"), ("ens", "ensures")):
-                        if spec.get(kind):
-                            ps.append(Piece("\n" + cind + "    " + kwd + "\n", label="kw"))
-                            for c in spec[kind]:
-                                ps.append(Piece(cind + "        " + c.text.rstrip().rstrip(",") + ",\n", label=c.label))
-                    if ps:
-                        ps.append(Piece(cind, label="kw"))
-                    if not block:
-                        ps.append(Piece("{ ", label="kw"))
-                        ed.insert_before(bend, [Piece(" }", label="kw")])
-                    ed.insert_before(body, ps)
+                weave_closures(d, sf, it.body_open + 1, it.body_close, ed, rule_hits)
     elif d.mode == "opaque":
         if it.kind not in ("struct", "enum"):
             raise ExtractError("opaque needs a struct or enum: %s" % it.name)
@@ -1005,7 +1076,7 @@ def render_item(d, it, repo_root, registry):
     return out
 
 
-OPTION_KW = ("ret", "req", "ens", "props", "loop", "closure", "rule", "attr", "dropattr", "canary", "rename", "prefix", "from", "upto", "uptosemi", "block", "bytesconst", "count")
+OPTION_KW = ("ret", "req", "ens", "props", "loop", "closure", "rule", "attr", "dropattr", "canary", "rename", "prefix", "from", "upto", "uptosemi", "before", "block", "bytesconst", "count")
 _lab_re = re.compile(r"^(req|ens|inv)(\[([^\]]+)\])?\s+(.*)$", re.S)
 
 
@@ -1107,6 +1178,10 @@ def parse_options(d, lines, unit_name):
             # the span is the first `{...}` block that follows the text (e.g. the body of a match arm `Ok(mut buffer) =>`),
             # braces included: it becomes the body of the wrapper function in the template
             d.span_block = rest
+        elif w == "before":
+            # the span ends right before the (first) statement that starts with the text
+            d.span_upto = rest
+            d.span_before = True
         elif w == "uptosemi":
             # the span ends with the `;` that closes the statement containing the text (not with a block)
             d.span_upto = rest
